@@ -243,7 +243,7 @@ func verifC09_late_closeread() {
 	ctx := c.CloseRead(vBG)
 	select {
 	case <-ctx.Done():
-	case <-time.After(30 * time.Second):
+	case <-time.After(8 * time.Second):
 		vAssert(false, "C09.closeread.cancelled-at-all")
 	}
 	vAssert(vGhostElapsed()-start < time.Second+vSlack(), "C09.closeread.prompt")
